@@ -23,7 +23,7 @@ H = "harness/c19/"
 STUBS = "harness/common/r1_stubs.cpp"
 D, C, N, S, L, U = 0, 1, 2, 3, 4, 9            # destroy_key, create_key, set_tls(nullptr), super clear, locals clear, unknown
 EXPECTED = {"lifeClearKey": [L, D, C, S], "lifeClearNo": [L, S], "lifeCtorKey": [C], "lifeCtorNo": [], "lifeDtorKey": [D, C, S, L, D], "lifeDtorNo": [S, L],
-            "lifeTlsLookup": True}
+            "lifeTlsLookup": True, "lifeSwapKey": True}
 
 
 def strip_comments(s):
@@ -158,6 +158,23 @@ def read_lifecycle():
         re.search(r"T\s*&\s*local\s*\(\s*bool\s*&\s*exists\s*\)\s*\{\s*return\s+my_ets\.local\s*\(\s*exists\s*\)\s*;\s*\}", comb) is not None and \
         re.search(r"enumerable_thread_specific\s*<\s*T\s*,\s*my_alloc\s*,\s*ets_no_key\s*>", comb) is not None
     notes["combinable forwards clear()/local() to an ets_no_key container"] = comb_ok
+    # --- internal_swap (same-type move construction / move assignment / swap): key, table and my_locals travel together ---------
+    base_swap = body_of(src, r"void\s+table_swap\s*\(\s*ets_base\s*&\s*other\s*\)\s*\{")
+    key_swap = body_of(posix, r"void\s+table_swap\s*\(\s*ets_base\s*&\s*other\s*\)\s*\{")
+    iswap = body_of(cls, r"void\s+internal_swap\s*\(\s*enumerable_thread_specific\s*&\s*other\s*\)\s*\{")
+
+    def stmts_wo_asserts(b):
+        return [norm(x) for x in statements(b or "?") if not norm(x).startswith("__TBB_ASSERT(") and norm(x) != "usingstd::swap"]
+    base_swap_ok = base_swap is not None and sorted(stmts_wo_asserts(base_swap)) == sorted(
+        ["swap_atomics_relaxed(my_root,other.my_root)", "swap_atomics_relaxed(my_count,other.my_count)"])
+    key_swap_ok = key_swap is not None and sorted(stmts_wo_asserts(key_swap)) == sorted(["swap(my_key,other.my_key)", "super::table_swap(other)"])
+    iswap_ok = iswap is not None and sorted(stmts_wo_asserts(iswap)) == sorted(
+        ["swap(my_construct_callback,other.my_construct_callback)", "swap(my_locals,other.my_locals)", "this->ets_base<ETS_key_type>::table_swap(other)"])
+    # the same-type move constructor / move assignment / swap() must go through internal_swap
+    movers = len(re.findall(r"internal_swap\s*\(\s*other\s*\)", cls))
+    notes["table_swap (generic / per-instance) and internal_swap"] = [" ".join((base_swap or "<not found>").split()), " ".join((key_swap or "<not found>").split()),
+                                                                     " ".join((iswap or "<not found>").split()), "calls of internal_swap(other): %d" % movers]
+    swap_ok = bool(base_swap_ok and key_swap_ok and iswap_ok and movers >= 2)
     members = [L] if has_locals else [U]
     extra = [] if (lookup_call and gen_ctor and gen_dtor) else [U]
     g = {
@@ -168,6 +185,7 @@ def read_lifecycle():
         "lifeDtorKey": (kops(cdtor, key_tc) if cdtor is not None else [U]) + members + key_dtor,
         "lifeDtorNo": (kops(cdtor, base_ops) if cdtor is not None else [U]) + members,
         "lifeTlsLookup": bool(tl_ok),
+        "lifeSwapKey": swap_ok,
     }
     return g, notes
 
@@ -176,6 +194,7 @@ def lean_defs(g):
     out = ""
     for k in ("lifeClearKey", "lifeClearNo", "lifeCtorKey", "lifeCtorNo", "lifeDtorKey", "lifeDtorNo"):
         out += "def %s : List Nat := [%s]\n" % (k, ", ".join(map(str, g[k])))
+    out += "def lifeSwapKey : Bool := %s\n" % ("true" if g.get("lifeSwapKey") else "false")
     return out + "def lifeTlsLookup : Bool := %s\n" % ("true" if g["lifeTlsLookup"] else "false")
 
 
@@ -190,6 +209,8 @@ def gen(ck):
     ck.oblige("gen:lifecycle functions of enumerable_thread_specific / ets_base<ets_key_per_instance> / combinable read from the headers (clear, constructor, "
               "destructor, TLS fast path of table_lookup, pthread key primitives) without unknown statements", "generated",
               err is None and not any(U in v for v in g.values() if isinstance(v, list)), err or g)
+    ck.oblige("gen:internal_swap (same-type move construction / move assignment / swap) exchanges my_locals, the table (my_root, my_count) and, for "
+              "ets_key_per_instance, the native TLS key — read from the header", "generated", bool(g.get("lifeSwapKey")), notes.get("table_swap (generic / per-instance) and internal_swap"))
     return lean_defs(g), g
 
 
@@ -224,6 +245,9 @@ def corpus():
         scs.append({"kind": k, "threads": 4, "phases": [LK(0, 1), ("R", 2), LK(0), LK(1, 2), ("R", 0), LK(3), LK(0, (1, 2))]})
         # move away and back, copy
         scs.append({"kind": k, "threads": 3, "phases": [LK(0, 1), ("M", 2), LK(0, (1, 2)), ("Y", 0), ("C", 1), LK(0), ("M", 0), LK(2, 0), ("Y", 2)]})
+        # a fresh container is move-assigned into the one the threads have been using (internal_swap: key, table and elements travel together);
+        # threads that used it before, the mover itself and new threads access it afterwards; again after a clear
+        scs.append({"kind": k, "threads": 4, "phases": [LK(0, 1), ("X", 2), LK(0), LK(1, 3), ("X", 0), LK(0, (1, 2)), ("C", 1), LK(2), ("X", 2), LK(2, 0, 3)]})
         # the table doubles in one generation and starts again from nothing in the next
         scs.append({"kind": k, "threads": 9, "phases": [LK(*range(9)), ("C", 4), LK(*[(t, 2) for t in range(9)]), ("R", 8), LK(0, 8)]})
     # a thread that outlives MANY generations (more than PTHREAD_KEYS_MAX of them for the native-TLS kind)
@@ -248,8 +272,10 @@ def random_scenarios(rng, n):
                 phases.append(("C", rng.randrange(T)))
             elif c < 0.88:
                 phases.append(("R", rng.randrange(T)))
-            elif c < 0.94:
+            elif c < 0.92:
                 phases.append(("M", rng.randrange(T)))
+            elif c < 0.96:
+                phases.append(("X", rng.randrange(T)))
             else:
                 phases.append(("Y", rng.randrange(T)))
         if phases[-1][0] != "L":
@@ -290,7 +316,7 @@ def model_check(items):
             if w[0] == "op" and w[1] == "l":
                 cmds.append("l " + w[2])
                 expect.append((idx, "%s %s" % (w[3], w[4]), None))
-            elif w[0] == "op" and w[1] in ("c", "r"):
+            elif w[0] == "op" and w[1] in ("c", "r", "x"):
                 cmds.append("%s %s" % (w[1], w[2]))
                 expect.append((idx, "-", None))
             elif w[0] == "chk" and expect and expect[-1][0] == idx:
